@@ -21,7 +21,9 @@ Scn == [signResp : BOOLEAN, signAssert : BOOLEAN, enc : BOOLEAN, alg : Algs, bin
         authnCtx : {"password_authority", "tls_plain", "nonascii_authority"},
         \* the IdP's policy: everything in the "default" entry, or additionally an entry for this SP that sets something
         \* else (so lifetime and name format still come from "default")
-        idpPolicy : {"defaultOnly", "perSPpartial"}]            \* the SP's accepted_time_diff: widens acceptance, never what is reported
+        idpPolicy : {"defaultOnly", "perSPpartial"},
+        \* the time zone of the process the SP runs in: instants are UTC whatever it is
+        tz : {"UTC", "east9", "west5"}]            \* the SP's accepted_time_diff: widens acceptance, never what is reported
 
 \* what the built response carries (Entity._response): with encryption the assertion signature is made
 \* before encrypting and lives inside the cipher text
@@ -37,6 +39,8 @@ WellFormed(s) == /\ Satisfies(s)
                  /\ (s.authnCtx # "password_authority" => s.vclass = "plain" /\ ~s.wantEither /\ s.alg = "sha256" /\ ~s.unknownAttr /\ s.skew = 0)
                  /\ (s.idpPolicy # "defaultOnly" => s.vclass = "plain" /\ ~s.wantEither /\ s.alg = "sha256" /\ ~s.unknownAttr /\ s.skew = 0
                                                     /\ s.authnCtx = "password_authority")
+                 /\ (s.tz # "UTC" => s.vclass = "plain" /\ ~s.wantEither /\ s.alg = "sha256" /\ ~s.unknownAttr /\ s.skew = 0 /\ s.binding = "post"
+                                     /\ s.authnCtx = "password_authority" /\ s.idpPolicy = "defaultOnly" /\ s.nameid = "transient")
                  /\ (s.skew # 0 => s.vclass = "plain" /\ ~s.wantEither /\ s.alg = "sha256" /\ s.nameid = "transient" /\ ~s.unknownAttr)
 
 VARIABLES scn, pc
